@@ -25,11 +25,12 @@ def zid(z: int) -> str:
 
 
 ONEFRAG: set[int] = set()    # zones whose schedules are small enough for a single fragment (set per scenario)
+SHRINK: set[int] = set()     # zones whose schedule is replaced (from version 2 on) by one that fits a single fragment
 
 
 def mk_sched(z: int, c: int) -> dict:
     """The schedule with content version c of zone z (validator-accepted, 2 or 3 fragments; 1 for ONEFRAG zones)."""
-    if z in ONEFRAG:   # the same switch-point every day: compresses into one fragment
+    if z in ONEFRAG or (z in SHRINK and c >= 2):   # the same switch-point every day: compresses into one fragment
         return {"zone_idx": zid(z), "schedule": [
             {"day_of_week": d, "switchpoints": [{"time_of_day": "00:00", "heat_setpoint": 15.0 + c + z}]}
             for d in range(7)]}
@@ -65,7 +66,7 @@ class Book:
         for z in zones:
             for c in range(MAXC + 1):
                 fr = full_sched_to_fragz(mk_sched(z, c))
-                want = 1 if z in ONEFRAG else 2 if c < 2 else 3
+                want = 1 if z in ONEFRAG or (z in SHRINK and c >= 2) else 2 if c < 2 else 3
                 if len(fr) != want:
                     raise RuntimeError(f"mk_sched({z},{c}) has {len(fr)} fragments, wanted {want}")
                 self.frags[z, c] = fr
@@ -93,7 +94,7 @@ _BOOKS: dict[tuple, Book] = {}
 
 
 def _book(zones: tuple) -> Book:
-    key = (zones, tuple(sorted(ONEFRAG)))
+    key = (zones, tuple(sorted(ONEFRAG)), tuple(sorted(SHRINK)))
     if key not in _BOOKS:
         _BOOKS[key] = Book(list(zones))
     return _BOOKS[key]
@@ -184,6 +185,8 @@ class Run:
         self.sc = scenario
         ONEFRAG.clear()
         ONEFRAG.update(scenario.get("onefrag", []))
+        SHRINK.clear()
+        SHRINK.update(scenario.get("shrink", []))
         self.zones: list[int] = list(scenario.get("zones", [1, 2]))
         self.verbose = verbose
         self.ev: list[dict] = []
